@@ -1,6 +1,194 @@
-/-! line-protocol handlers (stub: filled in when the suite is built) -/
-namespace Apko.Driver.Oci
+import Apko.Model.Oci
+/-! line-protocol handlers for corr:oci (C12).
 
-def handle (_args : List String) : Option String := none
+Encoding: a text is hex; a list is a comma separated sequence of `x<hex>` items (so that the empty
+text and the empty list differ); a pair is `x<hexkey>:<hexvalue>`; an entry is `x<hexname>:<size>`. -/
+namespace Apko.Driver.Oci
+open Apko Apko.Oci
+
+def items (s : String) : List Text :=
+  ((splitOnChar ',' s.toList).filter (· ≠ [])).map (·.drop 1)
+
+def parseList (s : String) : List Text := (items s).map unhex
+
+def parsePairs (s : String) : List (Text × Text) :=
+  (items s).map fun it =>
+    match splitOnChar ':' it with
+    | [k, v] => (unhex k, unhex v)
+    | _ => (unhex it, [])
+
+def parseEntries (s : String) : List Entry :=
+  (items s).map fun it =>
+    match splitOnChar ':' it with
+    | [n, sz] => ⟨unhex n, digitsToNat sz⟩
+    | _ => ⟨unhex it, 0⟩
+
+def joinS (sep : String) (l : List String) : String := sep.intercalate l
+
+def showList (l : List Text) : String := joinS "," (l.map fun t => "x" ++ hexS t)
+def showPairs (l : List (Text × Text)) : String := joinS "," (l.map fun p => "x" ++ hexS p.1 ++ ":" ++ hexS p.2)
+def showEntries (l : List Entry) : String := joinS "," (l.map fun e => "x" ++ hexS e.name ++ ":" ++ toString e.size)
+
+def showBlock : Block → String
+  | .hdr n s => "H" ++ hexS n ++ ":" ++ toString s
+  | .data => "D"
+  | .zero => "Z"
+
+def showBlocks : Option (List Block) → String
+  | none => "fail"
+  | some bs => joinS "," (bs.map showBlock)
+
+def parseBlocks (s : String) : List Block :=
+  ((splitOnChar ',' s.toList).filter (· ≠ [])).map fun it =>
+    match it with
+    | 'H' :: rest =>
+      (match splitOnChar ':' rest with
+       | [n, sz] => .hdr (unhex n) (digitsToNat sz)
+       | _ => .data)
+    | ['Z'] => .zero
+    | _ => .data
+
+def showConfig (o : OciConfig) : String :=
+  joinS "|" [showList o.entrypoint, showList o.cmd, hexS o.workingDir, hexS o.stopSignal, hexS o.user,
+    showList o.volumes, showList o.env, showPairs o.labels, hexS o.author, hexS o.os, hexS o.created,
+    hexS o.architecture, hexS o.variant]
+
+/-- shlex as observed on the Go side: `err` or `ok` followed by the token list -/
+def parseShlex (s : String) : Option (List Text) :=
+  match s.toList with
+  | 'o' :: 'k' :: ':' :: rest => some (parseList (String.ofList rest))
+  | _ => none
+
+def triple (impl spec cls : String) : String := impl ++ "\t" ++ spec ++ "\t" ++ cls
+
+/-- manifests: `x<hexarch>:<hexvariant>:<id>` -/
+def parseManifests (s : String) : List (Platform × Nat) :=
+  (items s).map fun it =>
+    match splitOnChar ':' it with
+    | [a, v, i] => (⟨unhex a, unhex v⟩, digitsToNat i)
+    | _ => (⟨[], []⟩, 0)
+
+def showManifests (l : List (Nat × Platform)) : String :=
+  joinS "," (l.map fun e => "x" ++ hexS e.2.arch ++ ":" ++ hexS e.2.variant ++ ":" ++ toString e.1)
+
+/-- tag map: `x<hextag>:<id>` sorted by tag -/
+def parseTagMap (s : String) : List (Text × Nat) :=
+  (items s).map fun it =>
+    match splitOnChar ':' it with
+    | [t, i] => (unhex t, digitsToNat i)
+    | _ => ([], 0)
+
+def showTagMap (m : List (Text × Nat)) : String :=
+  joinS "," ((m.mergeSort leKey).map fun p => "x" ++ hexS p.1 ++ ":" ++ toString p.2)
+
+def parseArchImgs (s : String) : List (Text × Nat) := parseTagMap s
+
+def mkCfg (aEpShell aEpCmd aCmd aWorkdir aStop aVcs aRunAs aVolumes aEnv aAnn : String) : ImageCfg where
+  epShell := unhexS aEpShell
+  epCmd := unhexS aEpCmd
+  cmd := unhexS aCmd
+  workdir := unhexS aWorkdir
+  stopSignal := unhexS aStop
+  vcsUrl := unhexS aVcs
+  runAs := unhexS aRunAs
+  volumes := parseList aVolumes
+  env := parsePairs aEnv
+  annotations := parsePairs aAnn
+
+def mkOut (gEp gCmd gWd gSig gUser gVol gEnv gLabels gAuthor gOs gCreated gArch gVariant : String) : OciConfig where
+  entrypoint := parseList gEp
+  cmd := parseList gCmd
+  workingDir := unhexS gWd
+  stopSignal := unhexS gSig
+  user := unhexS gUser
+  volumes := parseList gVol
+  env := parseList gEnv
+  labels := parsePairs gLabels
+  author := unhexS gAuthor
+  os := unhexS gOs
+  created := unhexS gCreated
+  architecture := unhexS gArch
+  variant := unhexS gVariant
+
+/-- images: `x<hexcfg>:<cfgsize>:<hexlayer>=<size>;…` -/
+def parseImgs (s : String) : List Img :=
+  (items s).map fun it =>
+    match splitOnChar ':' it with
+    | [c, sz, ls] =>
+      { cfgName := unhex c, cfgSize := digitsToNat sz,
+        layers := ((splitOnChar ';' ls).filter (· ≠ [])).map fun l =>
+          match splitOnChar '=' l with
+          | [n, z] => (unhex n, digitsToNat z)
+          | _ => (unhex l, 0) }
+    | _ => { cfgName := [], cfgSize := 0, layers := [] }
+
+def handle (args : List String) : Option String :=
+  match args with
+  | ["oci.arch", s] =>
+    let t := unhexS s
+    let p := toOCIPlatform t
+    let out := joinS "|" [hexS (parseArch t), hexS (toAPK t), hexS p.arch, hexS p.variant]
+    let q := Spec.platformOf t
+    let spec := joinS "|" [hexS (Spec.canonArch t), hexS (Spec.toAPK t), hexS q.arch, hexS q.variant]
+    some <| triple out spec (if out = spec then "-" else "unlisted")
+  | ["oci.offset", pos, size] =>
+    let p := pos.toNat!; let s := size.toNat!
+    let impl := toString (Impl.newOffset p s)
+    let spec := toString (Spec.nextBoundary (p + s))
+    some <| triple impl spec (if impl = spec then "-" else if (p + s) % 512 = 0 then "F12a" else "unlisted")
+  | ["oci.bundle", imgs, appended] =>
+    let is := parseEntries imgs; let aps := parseEntries appended
+    let impl := showBlocks (Impl.bundle is aps)
+    let spec := showBlocks (Spec.bundle is aps)
+    let cls := if impl = spec then "-" else
+      match is.getLast? with
+      | some e => if e.size % 512 = 0 then "F12a" else "unlisted"
+      | none => "unlisted"
+    some <| triple impl spec cls
+  | ["oci.multiwrite", imgs, msize] =>
+    let out := showEntries (multiWrite (parseImgs imgs) msize.toNat!)
+    some <| triple out out "-"
+  | ["oci.read", blocks] =>
+    let out := match readArchive (parseBlocks blocks) with
+      | some es => "ok " ++ showEntries es
+      | none => "err"
+    some <| triple out out "-"
+  | ["oci.tags", tags, manifests, goMap] =>
+    let ts := parseList tags
+    let ms := parseManifests manifests
+    let impl := showTagMap (tagsToImages Impl.archSuffix ts ms)
+    let bundled := (parseTagMap goMap).map (·.2)
+    let spec := if decide (Spec.BundleComplete ms bundled) then "pass" else "fail:image-missing-from-bundle"
+    -- listed class F12b: two manifests with different images share the architecture-only suffix
+    let collide := ms.any fun m => ms.any fun m' => m.2 ≠ m'.2 && pinnedArchSuffix m.1 == pinnedArchSuffix m'.1
+    some <| triple impl spec (if spec = "pass" then "-" else if collide then "F12b" else "unlisted")
+  | ["oci.index", archs, goEntries] =>
+    let imgs := parseArchImgs archs
+    let impl := showManifests (Impl.indexEntries imgs)
+    let go := (parseManifests goEntries).map fun m => (m.2, m.1)
+    let spec := if decide (Spec.IndexOk imgs go) then "pass" else "fail:index-entries"
+    some <| triple impl spec (if spec = "pass" then "-" else "unlisted")
+  | ["oci.config", aEpShell, aEpCmd, aCmd, aWorkdir, aStop, aVcs, aRunAs, aVolumes, aEnv, aAnn,
+      shEp, shCmd, created, arch,
+      gEp, gCmd, gWd, gSig, gUser, gVol, gEnv, gLabels, gAuthor, gOs, gCreated, gArch, gVariant] =>
+    let ic : ImageCfg := mkCfg aEpShell aEpCmd aCmd aWorkdir aStop aVcs aRunAs aVolumes aEnv aAnn
+    let shlex : Text → Option (List Text) := fun s =>
+      if s = ic.epCmd then parseShlex shEp else if s = ic.cmd then parseShlex shCmd else none
+    let shlex : Text → Option (List Text) := fun s =>
+      -- when both strings are equal the two observations agree (shlex is a function)
+      if s = ic.cmd ∧ s ≠ ic.epCmd then parseShlex shCmd else shlex s
+    let cr := unhexS created; let ar := unhexS arch
+    let impl := match Impl.buildConfig shlex ic cr ar with
+      | some o => showConfig o
+      | none => "err"
+    let spec :=
+      if gEp = "err" then
+        (if Impl.buildConfig shlex ic cr ar = none then "pass" else "fail:unexpected-error")
+      else
+        let o : OciConfig := mkOut gEp gCmd gWd gSig gUser gVol gEnv gLabels gAuthor gOs gCreated gArch gVariant
+        if Impl.buildConfig shlex ic cr ar = none then "fail:error-expected"
+        else Spec.configVerdict shlex ic cr ar o
+    some <| triple impl spec (if spec = "pass" then "-" else "unlisted")
+  | _ => none
 
 end Apko.Driver.Oci
